@@ -590,6 +590,7 @@ def run(ctx):
     ctx.assumptions += [
         "a protection / decision is given to a whole coordinate family (interface field + the same field of every implementing type)",
         "the base payload (same operation, no authorizer, same engine) defines which positions exist and which values are the denied ones",
-        "subscription updates are not exercised (the example subscription needs a WebSocket upgrade that the in-process transport rejects)",
+        "subscription updates, the pre-start check of subscriptions and requests with several mutation root fields are exercised with hand-built plans "
+        "at the resolve level (real postprocess.Processor + real Resolver, fake data sources), not through the planner / a WebSocket transport",
         "shape, families and root fields of subgraph requests are computed with vektah/gqlparser, not with the code under test",
     ]
